@@ -661,10 +661,13 @@ FailHeads(S, fs, ms) ==              \* heads with a mismatch: forward to the fa
 ProcessEvent(S0, event, actionable) ==
   LET activeLoops == {S0.flows[k].loop : k \in {q \in 1..Len(S0.flows) : Listening(S0.flows[q])}}
       \* _process_internal_events_without_default_matchers (slice 1: StartFlow of a known flow other than main)
-      \* (a start whose source flow - another flow - has ended in the meantime is dropped: the parent was stopped while the start was pending)
+      \* (a start whose source flow has ended in the meantime is dropped: the parent was stopped while the start was pending)
       srcDone == event.name = "StartFlow" /\ "source_flow_instance_uid" \in ArgKeys(event.args) /\ "flow_id" \in ArgKeys(event.args)
                  /\ LET q == UidToInst(S0, ArgVal(event.args, "source_flow_instance_uid")) IN
-                    q # 0 /\ <<"s", Fl(S0, q).fid>> # ArgVal(event.args, "flow_id") /\ DoneF(Fl(S0, q))
+                    q # 0 /\ DoneF(Fl(S0, q))
+                    /\ (\/ <<"s", Fl(S0, q).fid>> # ArgVal(event.args, "flow_id")
+                        \* (an activated flow is restarted by its own ended instance; any other start by an ended instance of the same flow is dropped as well)
+                        \/ ~("activated" \in ArgKeys(event.args) /\ Truthy(ArgVal(event.args, "activated"))))
       isStart == event.name = "StartFlow" /\ "flow_id" \in ArgKeys(event.args) /\ ArgVal(event.args, "flow_id")[1] = "s"
                  /\ HasCfg(ArgVal(event.args, "flow_id")[2]) /\ ArgVal(event.args, "flow_id")[2] # "main"
                  /\ "flow_instance_uid" \in ArgKeys(event.args) /\ ~srcDone
